@@ -221,7 +221,7 @@ def conv_case(rng, malformed=False):
     if malformed and p:
         p[rng.randrange(len(p))][0] = rng.sample(range(5), 3)
         n = 5
-    labels = "int" if kind in MATRIX else rng.choice(Labels.STYLES)
+    labels = "int" if kind in MATRIX else rng.choice(Labels.STYLES_X)
     p, num = make_exact(rng, p, {"pubo_to_puso": "poly", "qubo_to_quso": "quad"}.get(f))
     return {"family": "conv", "f": f, "kind": kind, "n": n, "p": p, "labels": labels, "num": num}
 
@@ -295,7 +295,7 @@ def meth_case(rng, malformed=False):
         kind = rng.choice(sorted(MATRIX))   # Matrix types have no to_* methods
         spin = is_spin_kind(kind)
         p = gen_terms(rng, n, 2)
-    labels = "int" if kind in MATRIX else rng.choice(Labels.STYLES)
+    labels = "int" if kind in MATRIX else rng.choice(Labels.STYLES_X)
     path = None
     if not spin:
         path = {"to_puso": "poly", "to_quso": "quad"}.get(target)
@@ -414,7 +414,7 @@ def sol_case(rng, malformed=False):
     vals = [b if form == "bool" else 1 - 2 * b for b in bits]
     flag = rng.choice([None, True, False])
     container = rng.choice(["dict", "list", "tuple"])
-    c = {"family": "sol", "kind": kind, "n": n, "p": p, "labels": rng.choice(Labels.STYLES), "num": "int",
+    c = {"family": "sol", "kind": kind, "n": n, "p": p, "labels": rng.choice(Labels.STYLES_X), "num": "int",
          "refresh": refresh, "form": form, "vals": vals, "flag": flag, "container": container,
          "valtype": rng.choice(["int", "int", "float"]) if all_dyadic(p) else "int"}
     if container == "dict":
@@ -550,7 +550,7 @@ def export_case(rng, malformed=False):
         n = rng.randint(1, 5)
         p = gen_terms(rng, n, 2, dyadic=True)
         return {"family": "export", "what": what, "kind": kind, "n": n, "p": p,
-                "labels": "int" if kind in MATRIX else rng.choice(Labels.STYLES), "num": pick_num(rng, p)}
+                "labels": "int" if kind in MATRIX else rng.choice(Labels.STYLES_X), "num": pick_num(rng, p)}
     if what == "m2q":
         n = rng.randint(1, 4)
         rows = [[(gen_coef(rng, True) if rng.random() < 0.7 else "0") for _ in range(n)] for _ in range(n)]
@@ -792,7 +792,7 @@ def hist_case(rng, malformed=False):
     if not any(st["op"] in ("to", "free", "sol") for st in steps[-2:]):
         steps.append(hist_conv(rng, kind, maxd))
     return {"family": "hist", "kind": kind, "n": n, "init": init, "steps": steps,
-            "labels": rng.choice(Labels.STYLES), "num": rng.choice(["int", "frac", "float"])}
+            "labels": rng.choice(Labels.STYLES_X), "num": rng.choice(["int", "frac", "float"])}
 
 
 def hist_terms(M, L):
